@@ -462,3 +462,111 @@ def code_spans(ctx):
     else:
         ctx.inconclusive.append("vacuity: nothing converted")
     ctx.sample({"paths": E.paths})
+
+
+# ---------------------------------------------------------------------------------------
+# O5: a reference written in the documentation of ANY kind of entity is made relative to the page that shows that documentation
+# ---------------------------------------------------------------------------------------
+KINDS_PROG = {"a.f90": ["module mod_k", "integer :: count", "enum, bind(c)", "enumerator :: red = 1, green", "end enum",
+                        "type stack", "integer :: items", "contains", "procedure :: push", "final :: wipe", "end type stack",
+                        "interface gen", "module procedure push", "end interface gen",
+                        "abstract interface", "subroutine cb()", "end subroutine cb", "end interface",
+                        "common /blk/ shared", "namelist /nl/ count", "contains",
+                        "subroutine push(self)", "class(stack) :: self", "contains", "subroutine inner()", "end subroutine inner", "end subroutine push",
+                        "subroutine wipe(self)", "type(stack) :: self", "end subroutine wipe",
+                        "end module mod_k", "program main", "use mod_k", "integer :: local", "end program main"]}
+
+
+def _kind_entities(p):
+    m = p.modules[0]
+    t = m.types[0]
+    ents = {"module": m, "variable": m.variables[0], "type": t, "component": t.variables[0], "binding": t.boundprocs[0],
+            "generic interface": m.interfaces[0], "abstract interface": m.absinterfaces[0], "procedure": m.subroutines[0],
+            "dummy argument": m.subroutines[0].args[0], "internal procedure": m.subroutines[0].subroutines[0], "program": p.programs[0],
+            "program variable": p.programs[0].variables[0]}
+    if getattr(m, "enums", None):
+        ents["enum"] = m.enums[0]
+        if getattr(m.enums[0], "variables", None):
+            ents["enumerator"] = m.enums[0].variables[0]
+    if getattr(t, "finalprocs", None):
+        ents["final binding"] = t.finalprocs[0]
+    if getattr(m, "common", None):
+        ents["common block"] = m.common[0]
+    if getattr(m, "namelists", None):
+        ents["namelist"] = m.namelists[0]
+    return ents
+
+
+def _kind_links(which=None):
+    import io, contextlib, os, re as _r
+    import ford.sourceform as sf
+    from ford._markdown import MetaMarkdown
+    old = sf.namelist
+    sf.namelist = sf.NameSelector()
+    try:
+        with contextlib.redirect_stdout(io.StringIO()), contextlib.redirect_stderr(io.StringIO()):
+            p = parserh.project_concrete({k: list(v) for k, v in KINDS_PROG.items()}, **PSET)
+            md = MetaMarkdown(".", base_url=pathlib.Path("/base"), project=p)
+            out = {}
+            target = p.modules[0].types[0].get_url()
+            for kind, ent in _kind_entities(p).items():
+                if which is not None and kind != which:
+                    continue
+                url = ent.get_url()
+                html = md.reset().convert("see [[stack]] here", context=ent)
+                m = _r.search(r"""href=["']([^"']*)["']""", html)
+                href = m.group(1) if m else None
+                want = "/base/" + target
+                if url is not None and href is not None:
+                    # what the browser opens when the link is followed from the page that shows this documentation
+                    href = os.path.normpath(os.path.join(os.path.dirname("/base/" + url.split("#")[0]), href))
+                out[kind] = (url, href, want)
+            return out
+    finally:
+        sf.namelist = old
+
+
+def replay_kind(w):
+    url, href, want = _kind_links(w["kind"]).get(w["kind"], (None, None, None))
+    return url is None or href != want, {"documentation of": w["kind"], "its URL (page that shows the documentation)": url, "[[stack]] leads to": href,
+                                         "page of stack": want}
+
+
+@obligation("C11", "O5.references-from-every-entity-kind", engine="SX(CV)", timeout=600)
+def links_every_kind(ctx):
+    """`[[stack]]` in the documentation of a symbolic kind of entity (module, variable, type, component, binding, final binding, generic and
+    abstract interface, procedure, dummy argument, internal procedure, enum, enumerator, common block, namelist, program): the entity has
+    a URL (own page or anchor on its parent's page) and the href is the relative path from that page"""
+    import ford.sourceform as sf
+    import ford._markdown as mk
+
+    ctx.encode_fn(sf.FortranBase.get_url)
+    ctx.encode_fn(mk.MetaMarkdown.convert)
+    kinds = sorted(_kind_links())
+    ctx.bounds.update({"entity kinds": kinds})
+    ctx.stubs.append("python-markdown needs concrete text: one path per entity kind; parser, project and MetaMarkdown are real")
+    if len(kinds) < 14:
+        ctx.inconclusive.append(f"only {len(kinds)} entity kinds found in the catalogue project")
+
+    def h(E):
+        k = CV.choice(E, "kind", kinds).concretize()
+        E.e.snapshot = lambda m: {"kind": k}
+        from fv import patch as _p
+        with _p.suspended():
+            bad, detail = replay_kind({"kind": k})
+        E.reachable("converted")
+        E.require(not bad, f"a reference in the documentation of a {k} is not relative to the page showing it (or the {k} has no URL)")
+
+    E = sym.Engine(ctx, max_paths=200, incremental=True)
+    found = E.explore(h)
+    seen = set()
+    for (label, m, pc), snap in zip(found, E.snapshots):
+        if label in seen or not snap:
+            continue
+        seen.add(label)
+        ctx.report(label, snap, replay_kind)
+    if E.reached.get("converted"):
+        ctx.twins += 1
+    else:
+        ctx.inconclusive.append("vacuity: nothing converted")
+    ctx.sample({"paths": E.paths})
